@@ -66,7 +66,7 @@ CLAIMED = {
          TB + "Single driving thread here (cross-thread Shift/Cancel are serialised by the step mutex: C04). 'Promptly' = a Step entered with the front due runs it; Step(0) runs one due task per step (documented).",
          "Coq proof (sorted-list invariants over all operation histories) + trace correspondence under a virtual clock"),
  "C17": ("proof", "Theorems want_send_on_unlisted_is_noop, unregister_tolerates_absent, remove_tolerates_absent, pfds_aligned_invariant (every register/unregister history), "
-         "promises_resolved_at_most_once_guard; the model marks every place where the C++ has undefined behaviour as Stuck and the correspondence (random walks over create/send/step/"
+         "promises_resolved_at_most_once_guard; the model marks every place where the C++ has undefined behaviour as Stuck and the correspondence (bounded-exhaustive enumeration of every history of <= 3 (thorough: 4) operations over {Send, Step, destroy socket, destroy driver, Cancel, Shift, Stop+Run} under three kernels, plus random walks over create/send/step/"
          "peer-action/destroy/cancel/shift, each in an isolated process under ASan+UBSan with _GLIBCXX_SANITIZE_VECTOR and asserts enabled) checks that model and library agree and never get there.", "5 C17",
          TB + "Partial by nature: the theorems are about logic-level validity of lookups, indices and lifetimes; memory safety of the compiled code is evidenced by the sanitizer runs on the same histories, not proved.",
          "Coq proof (bookkeeping invariants) + sanitizer-instrumented correspondence on random legal histories"),
